@@ -68,6 +68,8 @@ pub mod vx_trusted {
 }
 use vx_trusted::*;
 
+broadcast use axiom_client_id_hash_key_model;
+
 // ---------------------------------------------------------------------------------------------
 // ALLOCATION BUDGET (the "memory proportional to the input" clause of C10, as far as a contract can state it).
 // Every capacity request of a decoder (`SmallVec::with_capacity(X)`, `Vec::with_capacity(X)`, `HashMap::with_capacity(X)`,
@@ -275,4 +277,106 @@ pub proof fn lemma_suffix_refl(s0: Seq<u8>)
         suffix_of(s0, s0),
 {
     lemma_suffix_skip(s0, 0);
+}
+
+// ---------------------------------------------------------------------------------------------
+// counted lists on the wire: `n` items one after the other, each decoded by the item decoder `f`
+// ---------------------------------------------------------------------------------------------
+pub open spec fn dec_list<T>(f: spec_fn(Seq<u8>) -> Option<(T, nat)>, s: Seq<u8>, n: nat) -> Option<(Seq<T>, nat)>
+    decreases n,
+{
+    if n == 0 {
+        Some((Seq::<T>::empty(), 0nat))
+    } else {
+        match f(s) {
+            None => None,
+            Some((v, k)) => match dec_list(f, s.skip(k as int), (n - 1) as nat) {
+                None => None,
+                Some((vs, k2)) => Some((seq![v] + vs, k + k2)),
+            },
+        }
+    }
+}
+
+/// the result of a partial run: `acc` decoded from `k` bytes so far, `d` = what the remaining input decodes to
+pub open spec fn list_join<T>(acc: Seq<T>, k: nat, d: Option<(Seq<T>, nat)>) -> Option<(Seq<T>, nat)> {
+    match d {
+        None => None,
+        Some((rs, k2)) => Some((acc + rs, k + k2)),
+    }
+}
+
+/// every successful item decode consumes at least `c` bytes and never more than there are
+pub open spec fn item_bounded<T>(f: spec_fn(Seq<u8>) -> Option<(T, nat)>, c: nat) -> bool {
+    forall|s: Seq<u8>| (#[trigger] f(s)) is Some ==> c <= f(s)->Some_0.1 <= s.len()
+}
+
+/// C10, memory: a decoded list of n items took at least c * n bytes
+pub proof fn lemma_dec_list_bounded<T>(f: spec_fn(Seq<u8>) -> Option<(T, nat)>, c: nat, s: Seq<u8>, n: nat)
+    requires
+        item_bounded(f, c),
+    ensures
+        match dec_list(f, s, n) {
+            Some((vs, k)) => vs.len() == n && c * n <= k <= s.len(),
+            None => true,
+        },
+    decreases n,
+{
+    if n > 0 {
+        if f(s) is Some {
+            let (v, k) = f(s)->Some_0;
+            lemma_dec_list_bounded(f, c, s.skip(k as int), (n - 1) as nat);
+            assert(c * n == c * (n - 1) + c) by(nonlinear_arith);
+        }
+    } else {
+        assert(c * n == 0) by(nonlinear_arith) requires n == 0;
+    }
+}
+
+/// one more item at the end of the run
+pub proof fn lemma_dec_list_step<T>(f: spec_fn(Seq<u8>) -> Option<(T, nat)>, c: nat, s1: Seq<u8>, n: nat, acc: Seq<T>, k: nat, m: nat)
+    requires
+        item_bounded(f, c),
+        k <= s1.len(),
+        m > 0,
+        dec_list(f, s1, n) == list_join(acc, k, dec_list(f, s1.skip(k as int), m)),
+    ensures
+        match f(s1.skip(k as int)) {
+            None => dec_list(f, s1, n) is None,
+            Some((v, k2)) => k + k2 <= s1.len() && c <= k2
+                && s1.skip(k as int).skip(k2 as int) == s1.skip((k + k2) as int)
+                && dec_list(f, s1, n) == list_join(acc.push(v), k + k2, dec_list(f, s1.skip((k + k2) as int), (m - 1) as nat)),
+        },
+{
+    let s = s1.skip(k as int);
+    if f(s) is Some {
+        let (v, k2) = f(s)->Some_0;
+        assert(s.skip(k2 as int) =~= s1.skip((k + k2) as int));
+        match dec_list(f, s.skip(k2 as int), (m - 1) as nat) {
+            None => {},
+            Some((vs, k3)) => {
+                assert(acc + (seq![v] + vs) =~= acc.push(v) + vs);
+            },
+        }
+    }
+}
+
+/// the run is complete
+pub proof fn lemma_dec_list_done<T>(f: spec_fn(Seq<u8>) -> Option<(T, nat)>, s: Seq<u8>, acc: Seq<T>, k: nat)
+    ensures
+        list_join(acc, k, dec_list(f, s, 0)) == Some((acc, k)),
+{
+    assert(acc + Seq::<T>::empty() =~= acc);
+}
+
+/// the start of a run
+pub proof fn lemma_dec_list_start<T>(f: spec_fn(Seq<u8>) -> Option<(T, nat)>, s: Seq<u8>, n: nat)
+    ensures
+        dec_list(f, s, n) == list_join(Seq::<T>::empty(), 0, dec_list(f, s.skip(0), n)),
+{
+    assert(s.skip(0) =~= s);
+    match dec_list(f, s, n) {
+        None => {},
+        Some((vs, k)) => { assert(Seq::<T>::empty() + vs =~= vs); },
+    }
 }
